@@ -62,36 +62,46 @@ impl Story {
     ) -> Result<(), StoryError> {
         self.if_async_we_cant("remove a variable observer")?;
 
-        // Remove observer for this specific variable
-        match specific_variable_name {
-            Some(specific_variable_name) => {
-                if let Some(v) = self.variable_observers.get_mut(specific_variable_name) {
-                    let index = v.iter().position(|x| Rc::ptr_eq(x, observer)).unwrap();
-                    v.remove(index);
+        let is_observer = |x: &Rc<RefCell<dyn VariableObserver>>| Rc::ptr_eq(x, observer);
 
-                    if v.is_empty() {
-                        self.variable_observers.remove(specific_variable_name);
-                    }
+        match specific_variable_name {
+            // Remove observer for this specific variable
+            Some(specific_variable_name) => {
+                let registered = self
+                    .variable_observers
+                    .get(specific_variable_name)
+                    .is_some_and(|v| v.iter().any(is_observer));
+
+                if !registered {
+                    return Err(StoryError::BadArgument(format!(
+                        "The observer is not registered for variable '{specific_variable_name}'."
+                    )));
+                }
+
+                if let Some(v) = self.variable_observers.get_mut(specific_variable_name) {
+                    v.retain(|x| !is_observer(x));
                 }
             }
+            // Remove observer for all variables
             None => {
-                // Remove observer for all variables
-                let mut keys_to_remove = Vec::new();
+                let registered = self
+                    .variable_observers
+                    .values()
+                    .any(|v| v.iter().any(is_observer));
 
-                for (k, v) in self.variable_observers.iter_mut() {
-                    let index = v.iter().position(|x| Rc::ptr_eq(x, observer)).unwrap();
-                    v.remove(index);
-
-                    if v.is_empty() {
-                        keys_to_remove.push(k.to_string());
-                    }
+                if !registered {
+                    return Err(StoryError::BadArgument(
+                        "The observer is not registered for any variable.".to_owned(),
+                    ));
                 }
 
-                for key_to_remove in keys_to_remove.iter() {
-                    self.variable_observers.remove(key_to_remove);
+                for v in self.variable_observers.values_mut() {
+                    v.retain(|x| !is_observer(x));
                 }
             }
         }
+
+        self.variable_observers.retain(|_, v| !v.is_empty());
 
         Ok(())
     }
